@@ -43,11 +43,11 @@ import (
 // ---- environment: every draw is a choice among classes ---------------------
 
 type c12Env struct {
-	choices []int
-	pos     int
-	widths  []int
-	labels  []string
-	floatBounds []float64
+	choices       []int
+	pos           int
+	widths        []int
+	labels        []string
+	floatBounds   []float64
 	intThresholds []int64
 }
 
@@ -143,10 +143,34 @@ func c12Subnet(cidr string, w float64, tr string, pid prefix.PrefixID, port uint
 	return Subnet{CIDR: Ipnet{n}, Weight: w, Transport: tr, PrefixId: pid, Port: port}
 }
 
+// c12RefCumulative is the cumulative normalised weight table computed independently of the code under test.
+func c12RefCumulative(ss []Subnet) []float64 {
+	total := 0.0
+	for _, s := range ss {
+		total += s.Weight
+	}
+	if total <= 0 {
+		return nil
+	}
+	var out []float64
+	acc := 0.0
+	for _, s := range ss {
+		acc += s.Weight / total
+		out = append(out, acc)
+	}
+	return out
+}
+
 func c12Configs() []c12Cfg {
 	three := []Subnet{
 		c12Subnet("198.51.100.0/28", 1, "Min_Transport", 0, 0), c12Subnet("198.51.100.64/28", 0, "Min_Transport", 0, 0), c12Subnet("198.51.100.128/28", 3, "Min_Transport", 0, 0),
 		c12Subnet("203.0.113.0/28", 1, "Prefix_Transport", prefix.GetLong, 80), c12Subnet("203.0.113.64/28", 0, "Prefix_Transport", prefix.TLSClientHello, 443), c12Subnet("203.0.113.128/28", 3, "Prefix_Transport", prefix.OpenSSH2, 22),
+	}
+	// a zero weight between a heavier and a lighter subnet: a cumulative table that restarts after the zero entry
+	// leaves the lighter one unreachable
+	desc := []Subnet{
+		c12Subnet("198.51.100.0/28", 3, "Min_Transport", 0, 0), c12Subnet("198.51.100.64/28", 0, "Min_Transport", 0, 0), c12Subnet("198.51.100.128/28", 1, "Min_Transport", 0, 0),
+		c12Subnet("203.0.113.0/28", 3, "Prefix_Transport", prefix.GetLong, 80), c12Subnet("203.0.113.64/28", 0, "Prefix_Transport", prefix.TLSClientHello, 443), c12Subnet("203.0.113.128/28", 1, "Prefix_Transport", prefix.OpenSSH2, 22),
 	}
 	lastZero := []Subnet{
 		c12Subnet("198.51.100.0/28", 2, "Min_Transport", 0, 0), c12Subnet("198.51.100.64/28", 0, "Min_Transport", 0, 0),
@@ -165,7 +189,7 @@ func c12Configs() []c12Cfg {
 		}
 	}
 	for _, ov := range []string{"none", "rand"} {
-		for si, ss := range [][]Subnet{nil, one, three, lastZero, four} {
+		for si, ss := range [][]Subnet{nil, one, three, lastZero, four, desc} {
 			for _, pc := range []float64{0, 25, 50, 100, 150} {
 				for ei, ex := range [][]Subnet{nil, excl} {
 					out = append(out, c12Cfg{name: fmt.Sprintf("auth=true;ov=%s;enforce=on;subnets=%d;pct=%v;excl=%d", ov, si, pc, ei), auth: true, overrides: ov, enforce: true, subnets: ss, exclusions: ex, pMin: pc, pPref: pc})
@@ -258,8 +282,8 @@ func VerifC12Main() {
 			minS, preS := splitOverrideSubnets(cfg.subnets)
 			pMin, pPre := validateOverridePercentages(cfg.pMin, cfg.pPref)
 			env := &c12Env{}
-			for _, w := range [][]float64{processOverrideSubnetsWeights(minS), processOverrideSubnetsWeights(preS)} {
-				env.floatBounds = append(env.floatBounds, w...)
+			for _, w := range [][]float64{processOverrideSubnetsWeights(minS), processOverrideSubnetsWeights(preS), c12RefCumulative(minS), c12RefCumulative(preS)} {
+				env.floatBounds = append(env.floatBounds, w...) // class boundaries: the code's own table and the one computed here from the weights
 			}
 			env.intThresholds = []int64{int64(pMin * 10), int64(pPre * 10), 50}
 			// DFS over draw classes
